@@ -54,8 +54,18 @@ def format_message(e):
             args = {}
         assert isinstance(fmt, (bytes, str))
         return six.ensure_text(fmt % args)
-    except (ValueError, TypeError):
-        return six.ensure_text(e.get('message', "[no message]")) + " [formatting failed]"
+    except Exception:
+        # rendering an event must never raise: a format string that names a
+        # missing key (KeyError), a non-string message, or an argument whose
+        # __str__/__repr__ fails all end up here
+        msg = e.get('message', "[no message]")
+        try:
+            if not isinstance(msg, (bytes, str)):
+                msg = repr(msg)
+            msg = six.ensure_text(msg, errors="replace")
+        except Exception:
+            msg = "[unprintable message]"
+        return msg + " [formatting failed]"
 
 
 class Count:
